@@ -47,6 +47,7 @@ extern void (*v_on_gpio_write)(int pin, int level);
 #define V_FLASH_SECTORS 1024
 extern unsigned char v_flash[V_FLASH_SECTORS * 4096];
 extern int v_flash_fail_at;                   /* k>0: the k-th next flash op fails; 0 none */
+extern int v_flash_fail_code;                 /* what a failing op returns: 1 = SPI_FLASH_RESULT_ERR (default), 2 = SPI_FLASH_RESULT_TIMEOUT */
 extern int v_flash_crash_at;                  /* k>0: longjmp/exit before the k-th next op */
 extern int v_flash_ops;                       /* ops performed so far */
 extern int v_log_flash;
